@@ -11,8 +11,16 @@
 //   * trivial-success instances (row-high, polarity ANY, Σw ≤ Σ free − #segments·maxW) -> must not throw;
 //   * throw -> the circuit is unchanged;
 //   * the child never aborts / trips a sanitizer.
-// One case in three runs the measured call on an object with a PAST (lg::runLegalize with `prior`): the same
+// One case in three runs the measured call on an object with a PAST (lg::runLegalize with a lg::Past): the same
 // answers are demanded, because the property is about the circuit, not about how the object reached that state.
+// Family: something remembered inside the Circuit (a memoised computeRows()) that SOME setter forgets to drop.  Three kinds
+// of past: several attribute classes differ and the object was legalized ("mixed"); exactly ONE class differs after a
+// query-only past, so that one setter (setCellOrientation of a turned fixed macro, setCellX alone, setCellY alone,
+// setCellWidth, ..., setRows, or setupRows / setSolution when they can produce the state) is the sole restorer; and "eco":
+// the case IS the result of the past's legalize plus one edit through one setter (legalize, edit, legalize again).
+// One random case in five has its rows laid out by Circuit::setupRows itself (so that setupRows can be a restorer), and
+// one case in four lists its rows in another order than bottom-up / left to right (family: code relying on a row order
+// it does not, or only partially, establish; the model sorts like LegalizerBase does, so the answers must not change).
 #include "legalize_common.hpp"
 
 using namespace coloquinte;
@@ -21,17 +29,17 @@ struct Runner {
   vh::Out &out;
   explicit Runner(vh::Out &o) : out(o) {}
 
-  void run(const std::string &id, const Circuit &circ, const lg::LParams &lp, const std::string &stream, const Circuit *prior = nullptr) {
+  void run(const std::string &id, const Circuit &circ, const lg::LParams &lp, const std::string &stream, const lg::Past *prior = nullptr) {
     std::string caseTxt = lg::caseText(circ, lp);
     // what a failure records (and --replay reads back): the case, and the object's past when there is one
-    std::string text = caseTxt + (prior ? "prior\n" + lg::caseText(*prior, lp) : std::string());
+    std::string text = caseTxt + (prior ? lg::pastText(*prior, lp) : std::string());
     out.evaluations++;
     out.ops << "case " << id << "\n" << caseTxt << "order\nlegalize\n";
     out.impl << "case " << id << "\n";
     lg::Facts f = lg::facts(circ);
     bool valid = lg::paramsValid(lp);
     lg::RunResult r = lg::runLegalize(circ, lp, true, prior);
-    if (prior) out.count("object_with_history");
+    if (prior) lg::countPast(out, *prior, r);
     if (r.diag.find("history-restore-mismatch") != std::string::npos) out.fail(id, "harness: the setters did not bring the reused object to the public state of the case", text);
     if (r.status != "ok" || r.answer.empty()) {
       out.impl << r.order << "\n" << "crash:" << r.status << "\n";
@@ -82,18 +90,20 @@ int main(int argc, char **argv) {
   vh::Args a = vh::parseArgs(argc, argv);
   vh::Out out(a.out);
   out.rule = "a case = circuit of the C01 domain + legalization parameters; non-trivial = at least two movable cells and "
-             "(legalization moved something or threw); distinct by the canonical case text";
+             "(legalization moved something or threw); distinct by the canonical case text. One case in three runs on an object "
+             "with a past (history_* counters: class that differs, what the object did, which setters restored it, sole restorer); "
+             "rows_from_setupRows / rows_listed_* count the cases whose rows come from setupRows or are listed out of order";
   Runner r(out);
   if (!a.replay.empty()) {
     Circuit c(0);
     lg::LParams lp;
     std::string txt = lg::loadCaseFile(a.replay);
-    size_t cut = txt.find("\nprior\n");
-    if (cut != std::string::npos) {  // a case on an object with a past
-      Circuit prior(0);
-      lg::LParams lp2;
-      if (lg::parseCase(txt.substr(0, cut + 1), c, lp) && lg::parseCase(txt.substr(cut + 7), prior, lp2)) r.run("replay", c, lp, "replay+hist", &prior);
-    } else if (lg::parseCase(txt, c, lp)) r.run("replay", c, lp, "replay");
+    lg::Past past;
+    bool hasPast = false;
+    if (lg::parseCaseWithPast(txt, c, lp, past, hasPast)) {  // with "prior": a case on an object with a past
+      if (hasPast) r.run("replay", c, lp, "replay+hist", &past);
+      else r.run("replay", c, lp, "replay");
+    }
     out.finish();
     return 0;
   }
@@ -141,10 +151,45 @@ int main(int argc, char **argv) {
     // one case in eight lives far from the origin (offset up to 2^26: binary32 holds integers only up to 2^24, and the
     // ordering key is computed in binary32 -- the model rounds the same way, and legality must not depend on it)
     if (i % 8 == 3) { vc::translate(c, g.range(-(1ll << 26), 1ll << 26), g.range(-(1ll << 26), 1ll << 26)); stream += "+far"; }
-    // one case in three runs on an object with a past (computeRows + legalize of a perturbed circuit, then the setters)
+    // rows laid out by the library's own setupRows over the same area (random cases only: the directed ones are sized
+    // against their rows); stays in the domain (uniform, disjoint rows) and lets setupRows be the restoring call below
+    if (kind < 6 && c.nbRows() > 0 && g.chance(1, 5)) {
+      c.setupRows(c.computePlacementArea(), c.rows_[0].height(), g.chance(2, 3), g.chance(1, 2));
+      out.count("rows_from_setupRows");
+    } else if (g.chance(1, 4)) {
+      // the same rows listed in another order (the free width, hence the directed classes, do not depend on it)
+      int m = g.range(0, 4);
+      lg::relistRows(g, c, m);
+      out.count(std::string("rows_listed_") + lg::rowListingName(m));
+    }
+    // one case in three runs on an object with a past
     if (g.chance(1, 3) && c.nbCells() > 0) {
-      Circuit prior = lg::genPrior(g, c);
-      r.run(std::to_string(i), c, lp, stream + "+hist", &prior);
+      bool done = false;
+      if (g.chance(1, 4)) {
+        // "eco": legalize, ONE edit through one setter, legalize again -- the case is the result of the past's own
+        // legalize with one attribute class changed, so that setter is the only call between the two legalizations
+        lg::RunResult r0 = lg::runLegalize(c, lp, false);
+        Circuit t(0);
+        lg::LParams dummy;
+        if (r0.status == "ok" && r0.answer.rfind("sol", 0) == 0 && lg::parseCase(r0.after + lg::paramsLine(lp) + "\n", t, dummy) && t.nbCells() == c.nbCells()) {
+          Circuit after = c;
+          after.setCellX(t.cellX_); after.setCellY(t.cellY_); after.setCellOrientation(t.cellOrientation_);
+          int cls = lg::pickPastClass(g);
+          lg::Past past;
+          past.prior = c;
+          past.did = g.chance(1, 2) ? 2 : 1;
+          past.cls = std::string("eco_") + lg::pastClassName(cls);
+          past.viaSolution = g.chance(1, 3);
+          past.viaSetupRows = true;
+          Circuit c2 = lg::mutateOneClass(g, after, cls);
+          r.run(std::to_string(i), c2, lp, stream + "+hist", &past);
+          done = true;
+        }
+      }
+      if (!done) {
+        lg::Past past = lg::genPast(g, c);
+        r.run(std::to_string(i), c, lp, stream + "+hist", &past);
+      }
     } else {
       r.run(std::to_string(i), c, lp, stream);
     }
